@@ -7,6 +7,7 @@ import XV.Drv.SpinLock
 import XV.Drv.GovToken
 import XV.Drv.Acl
 import XV.Drv.EncMain
+import XV.Drv.Sched
 /-! line-protocol model driver: `xvdriver <engine> < ops.txt > model.out` -/
 def main (args : List String) : IO UInt32 := do
   match args with
@@ -19,4 +20,5 @@ def main (args : List String) : IO UInt32 := do
   | ["gov"] => XV.Drv.GovToken.run; return 0
   | ["acl"] => XV.Drv.Acl.run; return 0
   | ["enc"] => XV.Drv.EncMain.run; return 0
+  | ["sched"] => XV.Drv.Sched.run; return 0
   | _ => IO.eprintln "usage: xvdriver <engine>"; return 2
